@@ -50,7 +50,7 @@ func main() {
 	}
 	to := *timeout
 	if to == 0 {
-		to = 10
+		to = 20
 		if *tier == "thorough" {
 			to = 60
 		}
